@@ -1125,7 +1125,40 @@ class Engine:
         return calls.comprehension(self, st, node, "set")
 
     def e_JoinedStr(self, st, node):
-        return PyConst("<fstring>")
+        """f"{a},{b}" where the interpolated values are strings modelled as
+        lists of code points: the concatenation, again a list of code points.
+        Any other f-string is an opaque constant (messages)."""
+        parts = []
+        for v in node.values:
+            if isinstance(v, ast.Constant) and isinstance(v.value, str):
+                parts.append([z3.IntVal(ord(ch)) for ch in v.value])
+            elif isinstance(v, ast.FormattedValue) and v.format_spec is None and v.conversion == -1:
+                try:
+                    x = self.deref(st, self.eval(st, v.value))
+                except Unsupported:
+                    return PyConst("<fstring>")
+                if not (isinstance(x, V) and isinstance(x.t, Ty.List) and isinstance(x.t.e, (type(Key), type(Int))) and len(x.c) == 2):
+                    return PyConst("<fstring>")
+                parts.append(x)
+            else:
+                return PyConst("<fstring>")
+        if not any(isinstance(p, V) for p in parts):
+            return PyConst("<fstring>")
+        q = z3.Int(f"fs!{node.lineno}.{node.col_offset}")
+        total = z3.IntVal(0)
+        body = z3.IntVal(0)
+        pieces = []
+        for p in parts:
+            if isinstance(p, V):
+                pieces.append((total, p.c[0], (lambda arr, off: (lambda qq: arr[qq - off]))(p.c[1], total)))
+                total = total + p.c[0]
+            else:
+                for ch in p:
+                    pieces.append((total, z3.IntVal(1), (lambda c: (lambda qq: c))(ch)))
+                    total = total + 1
+        for off, ln, f in reversed(pieces):
+            body = z3.If(z3.And(off <= q, q < off + ln), f(q), body)
+        return self.alloc(st, V(Ty.List(Key), [z3.simplify(total), z3.Lambda([q], body)]))
 
     # ------------------------------------------------------------ statements
     def exec_block(self, st, stmts):
